@@ -153,6 +153,15 @@ class C11:
                 case["init"] += [{"p": R + [lossy], "k": "d", "m": 0o755}, {"p": R + [lossy, b(tn)], "k": "d", "m": 0o755},
                                  {"p": R + [lossy, b(tn), b(b"keep")], "k": "f", "m": 0o644, "c": [4]},
                                  {"p": R + [lossy, b(tn + b".toml")], "k": "f", "m": 0o644, "c": b(b"[types]\n")}]
+            if len(cases) % 9 == 5 and tn == b"x" and case["layers"] == LAYERS:
+                # a layer name with two components (tool/x): the layer lives in <layers>/tool/x, its TOML and SBOM
+                # files next to it; for the model this is the layer x of the layers directory <layers>/tool
+                tool = LAYERS + [b(b"tool")]
+                mv = lambda q: (tool + q[len(LAYERS):]) if q[:len(LAYERS)] == LAYERS and len(q) > len(LAYERS) and bytes(q[len(LAYERS)])[:1] == b"x" else q
+                case["init"] = [dict(e, p=mv(e["p"])) for e in init] + []
+                case["init"].insert(2, {"p": tool, "k": "d", "m": 0o755})
+                case["name"] = b(b"tool/x")
+                case["m_layers"], case["m_name"] = tool, b(b"x")
             cases.append(case)
         return cases
 
@@ -167,7 +176,7 @@ class C11:
         r = o["res"]
         res = "ROk" if r["ok"] else (f"(RErrno {r['err']})" if r["err"] in ERRS else "ROther")
         op = {"delete_layer": "OpDeleteLayer", "rdr": "OpRdr", "recreate": "OpRecreate", "read_layer": "OpReadLayer"}[c["op"]]
-        return f"(mkCase {cq_fs(o['pre'])} {cq_path(c['layers'])} {cq_bytes(c['name'])} {op} {res} {cq_fs(o['post'])})"
+        return f"(mkCase {cq_fs(o['pre'])} {cq_path(c.get('m_layers', c['layers']))} {cq_bytes(c.get('m_name', c['name']))} {op} {res} {cq_fs(o['post'])})"
 
     def nontrivial(self, c, o):
         x = c["layers"] + [c["name"]]
